@@ -314,6 +314,17 @@ def bit_after_copy_family():
     return out
 
 
+def overriding_measure_family():
+    """a classical gate on a bit that a later Measure(override_bits=True) overwrites"""
+    out = []
+    for pre in ((), ("H",), ("X",)):
+        layers = [{"g": _mg(k), "off": 0} for k in pre]
+        layers += [{"g": _mg("Bits", bits=[0]), "off": 1}, {"g": _mg("NOT"), "off": 1},
+                   {"g": _mg("Measure", n=1, f1=0, f2=1), "off": 0}]
+        out.append({"ty": ["q"], "layers": layers})
+    return out
+
+
 def work_one(mc):
     rec, t = observe_to(mc)
     out = [rec]
@@ -365,10 +376,15 @@ def rotation_import_family():
 def features(mc):
     """which of the situations named in known_findings.json occur in the circuit"""
     ty = list(mc["ty"])
-    out = {"discards-bit": 0, "new-bit-left-of-existing-bit": 0, "new-bit-after-copy-or-match": 0}
-    arity_changed = False
+    out = {"discards-bit": 0, "new-bit-left-of-existing-bit": 0, "new-bit-after-copy-or-match": 0,
+           "classical-gate-before-overriding-measure": 0}
+    arity_changed = classical_seen = False
     for l in mc["layers"]:
         g, o = l["g"], l["off"]
+        if classical_seen and g["k"] == "Measure" and g["f2"]:
+            out["classical-gate-before-overriding-measure"] = 1
+        if g["k"] in ("NOT", "Copy", "Match") or (g["k"] == "MSwap" and g["tl"] == ["b"] and g["tr"] == ["b"]):
+            classical_seen = True
         if arity_changed and (g["k"] == "Bits" or (g["k"] == "Measure" and not g["f2"])):
             out["new-bit-after-copy-or-match"] = 1
         if g["k"] in ("Copy", "Match"):
@@ -437,7 +453,7 @@ def run(tier, seed, t0):
         os.remove(model["dump"])
         n_all = len(circuits)
         sample = circuits if len(circuits) <= c["replay"] else rnd.sample(circuits, c["replay"])
-        sample = sample + dead_wire_family() + postselection_chain_family() + bit_after_copy_family()
+        sample = sample + dead_wire_family() + postselection_chain_family() + bit_after_copy_family() + overriding_measure_family()
         with mp.get_context("fork").Pool(16) as pool:
             nested = pool.map(work_one, sample, chunksize=4)
         recs = [r for group in nested for r in group]
